@@ -599,3 +599,49 @@ Definition gmove_single (m : gmove) : bool :=
   | GDie s => Nat.eqb s 0
   | GOn _ l => match lbl_sched l with Some s => Nat.eqb s 0 | None => true end
   end.
+
+(* ------------------------------------------------------------------ the death of a scheduler whose children
+   share its process group (launcher of the pinned commit: Popen without start_new_session).  A Ctrl-C or a
+   hang-up is delivered to the whole group: the child of the dying instance gets the signal as well.  Its
+   handler (TaskRunner.handle_error) writes the failure marker, removes the pid file, releases the lock and
+   exits with code 1; a child that is not yet inside TaskRunner.run just dies.  Coarse: one atomic effect.
+   Only used to state what the theorems of C11 owe to the repaired launcher (own session for every job).  *)
+Definition signal_child (st : jobdir) (p : nat) : jobdir :=
+  let c := procs st p in
+  if alive c then
+    let st1 := set_lock st (release (AProc p) (lock st)) in
+    let st2 := match c with
+               | PExec => st1
+               | _ => set_pidf (set_failed st1 true) PFNone
+               end in
+    let st3 := set_ghost st2 (body_runs st)
+                 (match c with PBody => pred (body_active st) | _ => body_active st end)
+                 (if pinflight c then pred (inflight st) else inflight st)
+                 (succ st) (aborts st) in
+    set_proc st3 p (PExit XFail)
+  else st.
+
+Definition lcrash_group (s : nat) (st : jobdir) : jobdir :=
+  let st1 := match scheds st s with
+             | SCreatePid p | SWritePid p | SUnlock p | SWait p => signal_child st p
+             | _ => st
+             end in
+  match lstep (LCrash s) st1 with Some st' => st' | None => st1 end.
+
+(* moves of the composed system with the pinned launcher: GDie is a group signal *)
+Definition gexec_group (deps : nat -> list nat) (m : gmove) (g : gstate) : option gstate :=
+  match m with
+  | GDie s => Some {| jd := fun j => lcrash_group s (jd g j) |}
+  | _ => gexec deps m g
+  end.
+Fixpoint grun_group (deps : nat -> list nat) (ms : list gmove) (g : gstate) : option gstate :=
+  match ms with
+  | [] => Some g
+  | m :: ms' => match gexec_group deps m g with Some g1 => grun_group deps ms' g1 | None => None end
+  end.
+(* a run in which nothing fails by itself and nobody kills a job process *)
+Definition quiet_move (m : gmove) : bool :=
+  match m with
+  | GOn _ (LKill _) | GOn _ (LEnd _ false) | GOn _ (LDepFail _) => false
+  | _ => true
+  end.
